@@ -2,7 +2,9 @@
 
 Proof: lean/Reduino/Props/C07.lean over Lang/Layout.lean (character-level `indentOf` / `stripInlineComment`; line-level
 block extraction of the front end vs Python's rule; invariance under re-layout; classification of skipped lines).
-Ties: the two character-level functions vs the real `_indent_of` / `_strip_inline_comment` on random strings; the model's
+Ties: the two character-level functions are TRANSLATED from the source of `_indent_of` / `_strip_inline_comment` on every run
+(harness/pytolean.py -> lean/Reduino/Gen/Layout.lean) and proved equal to the model on every input (GenOb/Layout.lean: gen_indentOf,
+gen_stripInlineComment); the same two also run against the real functions on random strings; the model's
 forest (incl. silently dropped lines) vs the nesting of the real IR and the hook's record of skipped lines, on generated
 scripts under random layouts — including the layouts that trigger the known defects.
 Oracle: byte-identical firmware for every meaning-preserving re-layout; every skipped line is benign."""
@@ -20,6 +22,10 @@ TRUSTED = [
     "Lean 4.33 kernel; axioms ⊆ {propext, Classical.choice, Quot.sound}",
     "the abstraction of a physical line to (indent, kind, trailing-comment, tag) is computed by the harness from the script it generated; the regular expressions "
     "that recognise headers are modelled by that classification and their agreement is checked by the forest tie, not proved",
+    "harness/pytolean.py, the translator of `_indent_of` / `_strip_inline_comment` to Lean (joins the trusted base: its reading of the Python subset — `for ch in s` / "
+    "`enumerate`, `continue`, `break`, `return` inside the loop, bool flags, `+=` on a non-negative int, `s[:i]` = List.take, `.rstrip()` = the model's rstrip over the "
+    "six ASCII blanks, str = List Char; a source outside the subset is reported as a broken obligation); the character-level differential tie exercises the same two functions "
+    "independently of the translator",
     "hook REDUINO_VERIF=1 in parser.py (records the lines that fall through `# unknown -> ignore` and the skipped print calls)",
 ]
 
@@ -235,7 +241,7 @@ def lookalikes(ctx):
 
 
 def run(ctx: Ctx) -> int:
-    ctx.prove(["Reduino.Props.C07"])
+    ctx.prove(["Reduino.Props.C07", "Reduino.GenOb.Layout"])
     common.fresh_import()
     P = importlib.import_module("Reduino.transpile.parser")
     E = importlib.import_module("Reduino.transpile.emitter")
